@@ -28,7 +28,7 @@ TraceInit ==
   /\ snap = [n \in Nodes |-> 0] /\ first = [n \in Nodes |-> 1]
   /\ ctl = None /\ disp = [n \in Nodes |-> Off] /\ dead = {}
   /\ floor = 0
-  /\ mem = [lp |-> e.st.lp, up |-> e.st.up, leader |-> e.st.leader, disps |-> e.st.dispatchers]
+  /\ mem = [lp |-> e.st.lp, up |-> e.st.up, leader |-> e.st.leader, disps |-> e.st.dispatchers, ack |-> e.st.ack]
   /\ l = 2
 
 Fail(kind, e, name) == PrintT(<<"FAIL", kind, e.t, l, e.a, name>>)
@@ -53,6 +53,12 @@ T_ControllerDispatches ==
 T_IdleMeansPublished ==
   (l > 1 /\ Trace[l - 1].a = "Quiet") => Pending = {}
 
+\* Assumption of DoDispatchPublish / DoRecordPublished ("publish THEN record"): a publish
+\* that returned success has put the event into the stream for good, i.e. the activity
+\* publishes wait for the acknowledgement of all in-sync replicas.  The driver leaves the
+\* policy at the server's default and records the effective value.
+T_PublishMeansCommitted == mem.up => A_DurablePublish(mem.ack)
+
 \* the lowest replicated lastPublished a dispatcher that may still publish can
 \* have started from: on one server the value before the step; with several
 \* servers the value before the last controller change (the previous
@@ -67,7 +73,7 @@ TraceNext ==
   /\ l' = l + 1
   /\ LET e == Trace[l] IN
      /\ rlog' = e.st.rlog /\ pub' = e.st.pub /\ blocked' = e.st.blocked
-     /\ mem' = [lp |-> e.st.lp, up |-> e.st.up, leader |-> e.st.leader, disps |-> e.st.dispatchers]
+     /\ mem' = [lp |-> e.st.lp, up |-> e.st.up, leader |-> e.st.leader, disps |-> e.st.dispatchers, ack |-> e.st.ack]
      /\ Dummies
      /\ floor' = NextFloor(e)
      /\ IF e.a = "Open" THEN TRUE
@@ -79,6 +85,7 @@ TraceNext ==
      /\ Chk(C18_LPSound', "P", e, "C18_LPSound")
      /\ Chk(T_ControllerDispatches', "P", e, "C18_ControllerDispatches")
      /\ Chk(T_IdleMeansPublished', "P", e, "C18_IdleMeansPublished")
+     /\ Chk(T_PublishMeansCommitted', "P", e, "C18_PublishMeansCommitted")
      /\ Chk(I_RecordsArePublished', "I", e, "I_RecordsArePublished")
      /\ Chk(TypeOK', "I", e, "TypeOK")
 
